@@ -101,7 +101,8 @@ Record Inv (s : st) : Prop := {
   i_wdl : wait_ok s;
   i_fuel : fuel_out s = false;
   i_run : running s = true -> closing s = false;
-  i_ptime : forall t, phase_timer s = Some t -> (now s <= t)%N
+  i_ptime : forall t, phase_timer s = Some t -> (now s <= t)%N;
+  i_excl : incl (excl s) (hosts s)
 }.
 
 (* the connector task holds control: no current connection, nothing open *)
@@ -111,17 +112,19 @@ Record Ctl (s : st) : Prop := {
   c_tasks : ntasks s = 1;
   c_wdl : wait_ok s;
   c_fuel : fuel_out s = false;
-  c_closing : closing s = false
+  c_closing : closing s = false;
+  c_excl : incl (excl s) (hosts s)
 }.
 
 Ltac inv_tac :=
   constructor; ss; unfold running, connected, cur_list, wait_ok, phase_timer in *; ss;
   intros; try congruence; try discriminate; auto;
-  try (match goal with Hw : forall w d, In (w, d) _ -> _ |- _ => eapply Hw; eassumption end).
+  try (match goal with Hw : forall w d, In (w, d) _ -> _ |- _ => eapply Hw; eassumption end);
+  try (match goal with |- incl [] _ => apply incl_nil_l end).
 
 Lemma backoff_inv s : Ctl s -> Inv (backoff s).
 Proof.
-  intros [Ho Hc Ht Hw Hf Hcl]. unfold backoff. inv_tac.
+  intros [Ho Hc Ht Hw Hf Hcl Hex]. unfold backoff. inv_tac.
   - rewrite Ho, Hc. reflexivity.
   - match goal with H : PSleep _ = PSleep _ |- _ => injection H as <- end.
     split; [reflexivity|]. pose proof (sleep_ticks_bounds (S (nfail s))). lia.
@@ -130,7 +133,7 @@ Qed.
 
 Lemma finish_auth_inv s : Ctl s -> Inv (finish PDoneAuth s).
 Proof.
-  intros [Ho Hc Ht Hw Hf Hcl]. unfold finish, resolve_waiters. inv_tac.
+  intros [Ho Hc Ht Hw Hf Hcl Hex]. unfold finish, resolve_waiters. inv_tac.
   - rewrite Ho, Hc. reflexivity.
   - rewrite Ht. reflexivity.
   - match goal with H : In _ [] |- _ => destruct H end.
@@ -138,9 +141,10 @@ Qed.
 
 Lemma finish_ok_connected_inv s c :
   cur s = Some c -> opn s = [c] -> secure s = true -> ntasks s = 1 -> wait_ok s -> fuel_out s = false ->
+  incl (excl s) (hosts s) ->
   Inv (finish PDoneOk s).
 Proof.
-  intros Hc Ho Hs Ht Hw Hf. unfold finish, resolve_waiters. inv_tac.
+  intros Hc Ho Hs Ht Hw Hf Hex. unfold finish, resolve_waiters. inv_tac.
   - rewrite Ho, Hc. reflexivity.
   - rewrite Ht. reflexivity.
   - rewrite Hc, Hs in *. discriminate.
@@ -152,10 +156,18 @@ Definition ContOk (cont : st -> st) (hs ds ex : list hostid) (h : hostid) : Prop
               mem_nat h ex = false -> excl s'' = ex ++ [h] ->
               subset_nat hs (excl s'') = false -> Inv (cont s'').
 
+Lemma incl_snoc (l hs : list nat) h : incl l hs -> In h hs -> incl (l ++ [h]) hs.
+Proof. intros Hl Hh. apply incl_app; [exact Hl|]. intros x [<-|[]]. exact Hh. Qed.
+
+Ltac inclh :=
+  try (match goal with |- incl (if ?c then _ else _) _ => destruct c end);
+  try assumption; try (apply incl_snoc; assumption); try (apply incl_nil_l).
+
 Lemma after_connect_inv cont fhc h s :
-  Ctl s -> length (excl s) <= fhc -> ContOk cont (hosts s) (desc s) (excl s) h -> Inv (after_connect cont fhc h s).
+  Ctl s -> length (excl s) <= fhc -> In h (hosts s) ->
+  ContOk cont (hosts s) (desc s) (excl s) h -> Inv (after_connect cont fhc h s).
 Proof.
-  intros [Ho Hc Ht Hw Hf Hcl] Hfhc Hcont. unfold after_connect, pop_verif. ss.
+  intros [Ho Hc Ht Hw Hf Hcl Hex] Hfhc Hin Hcont. unfold after_connect, pop_verif. ss.
   destruct (verifs s) as [|[k delta] vr] eqn:Ev.
   - (* script exhausted: ok, 0 *)
     ss. cbn [vclass_of]. ss.
@@ -177,9 +189,9 @@ Proof.
         destruct (mem_nat h (excl s)) eqn:Em.
         -- exfalso. apply Nat.ltb_lt in E1. lia.
         -- apply Hcont; ss; auto.
-           ++ constructor; ss; auto.
+           ++ constructor; ss; auto; inclh.
            ++ destruct (subset_nat (hosts s) (excl s ++ [h])); [discriminate|reflexivity].
-      * apply backoff_inv. constructor; ss; auto.
+      * apply backoff_inv. constructor; ss; auto; inclh.
     + (* authentication error: the connector ends *)
       ss. unfold drop_transport. ss. rewrite Ho. cbn [app mem_nat]. rewrite Nat.eqb_refl. ss.
       rewrite remove_nat_single.
@@ -196,10 +208,10 @@ Lemma rounds_inv cont fhc : forall cands s,
   Inv (rounds cont fhc cands s).
 Proof.
   induction cands as [|c0 rest IH]; intros s HC Hfhc Hincl Hcont.
-  - cbn [rounds]. unfold fail_other, drop_transport. destruct HC as [Ho Hc Ht Hw Hf Hcl]. rewrite Hc.
+  - cbn [rounds]. unfold fail_other, drop_transport. destruct HC as [Ho Hc Ht Hw Hf Hcl Hex]. rewrite Hc.
     apply backoff_inv. constructor; auto.
   - cbn [rounds]. unfold pop_dial.
-    assert (HC' := HC). destruct HC' as [Ho Hc Ht Hw Hf Hcl].
+    assert (HC' := HC). destruct HC' as [Ho Hc Ht Hw Hf Hcl Hex].
     destruct (dials s) as [|d dr] eqn:Ed.
     + (* script exhausted: refused *)
       apply IH; ss; auto.
@@ -216,9 +228,10 @@ Proof.
         -- match goal with H : PDial _ _ _ = PDial _ _ _ |- _ => injection H as <- <- <- end.
            split; [lia|]. split; [assumption|]. intros x Hx. apply Hincl. now right.
         -- match goal with H : Some _ = Some _ |- _ => injection H as <- end. lia.
-      * apply after_connect_inv; ss; auto.
+      * assert (Hnth : In (nth (Nat.min i (length (c0 :: rest) - 1)) (c0 :: rest) 0) (c0 :: rest))
+          by (apply nth_In; cbn [length]; lia).
+        apply after_connect_inv; ss; auto.
         -- constructor; ss; auto.
-        -- apply Hcont. apply nth_In. cbn [length]. lia.
 Qed.
 
 (* ---------- the immediate-retry cascade terminates: fuel measure ---------- *)
@@ -257,21 +270,21 @@ Proof.
   induction f as [|f IH]; intros s HC Hneed; [lia|].
   cbn [attempt_loop]. destruct (closing s) eqn:Ecl.
   - rewrite (c_closing _ HC) in Ecl. discriminate.
-  - assert (HC' := HC). destruct HC' as [Ho Hc Ht Hw Hf Hcl]. ss.
+  - assert (HC' := HC). destruct HC' as [Ho Hc Ht Hw Hf Hcl Hex]. ss.
     unfold need in Hneed.
     destruct (same_set (hosts s) (desc s)) eqn:Esync.
     + (* address list unchanged *)
       ss. destruct (filter (fun h => negb (mem_nat h (excl s))) (hosts s)) as [|c0 cr] eqn:Efil.
       * (* every address excluded: start over with all of them *)
         apply rounds_inv; ss; auto.
-        -- constructor; ss; auto.
+        -- constructor; ss; auto; inclh.
         -- cbn [length]; unfold hostid in *; lia.
         -- apply incl_refl.
         -- intros h Hh. apply cont_step; auto.
            unfold mu in Hneed. rewrite (filter_nil_free _ _ Efil) in Hneed. cbn in Hneed.
            pose proof (free_count_le (hosts s) []). (unfold hostid in *; lia).
       * apply rounds_inv; ss; auto.
-        -- constructor; ss; auto.
+        -- constructor; ss; auto; inclh.
         -- rewrite <- Efil. apply filter_incl.
         -- intros h Hh. apply cont_step; auto.
            ++ rewrite <- Efil in Hh. apply filter_In in Hh. tauto.
@@ -280,14 +293,14 @@ Proof.
     + (* the advertised addresses changed: adopt them, forget exclusions *)
       ss. match goal with |- context [match ?X with [] => _ | _ :: _ => _ end] => destruct X as [|c0 cr] eqn:Efil end.
       * apply rounds_inv; ss; auto.
-        -- constructor; ss; auto.
+        -- constructor; ss; auto; inclh.
         -- cbn [length]; unfold hostid in *; lia.
         -- apply incl_refl.
         -- intros h Hh. apply cont_step; auto.
            ++ apply same_set_refl.
            ++ pose proof (free_count_le (desc s) []). (unfold hostid in *; lia).
       * apply rounds_inv; ss; auto.
-        -- constructor; ss; auto.
+        -- constructor; ss; auto; inclh.
         -- cbn [length]; unfold hostid in *; lia.
         -- rewrite <- Efil. apply filter_incl.
         -- intros h Hh. apply cont_step; auto.
@@ -304,7 +317,8 @@ Ltac dinv H :=
   let Ho := fresh "Io" in let Hc := fresh "Ic" in let Hp := fresh "Ip" in let Ht := fresh "It" in
   let Hw := fresh "Iw" in let Hl := fresh "Il" in let Hs := fresh "Is" in let Hd := fresh "Id" in
   let Hwd := fresh "Iwd" in let Hf := fresh "If" in let Hr := fresh "Ir" in let Hpt := fresh "Ipt" in
-  destruct H as [Ho Hc Hp Ht Hw Hl Hs Hd Hwd Hf Hr Hpt].
+  let Hex := fresh "Iex" in
+  destruct H as [Ho Hc Hp Ht Hw Hl Hs Hd Hwd Hf Hr Hpt Hex].
 
 Lemma inv_cur_none s : Inv s -> connected s = false -> cur s = None.
 Proof.
@@ -314,9 +328,9 @@ Qed.
 
 Lemma start_from s :
   opn s = [] -> cur s = None -> running s = false -> ntasks s = 0 -> wait_ok s ->
-  fuel_out s = false -> closing s = false -> Inv (start_connector s).
+  fuel_out s = false -> closing s = false -> incl (excl s) (hosts s) -> Inv (start_connector s).
 Proof.
-  intros Ho Hc Hr Ht Hw Hf Hcl. unfold start_connector, connected. rewrite Hr, Hc. cbn [orb].
+  intros Ho Hc Hr Ht Hw Hf Hcl Hex. unfold start_connector, connected. rewrite Hr, Hc. cbn [orb].
   apply attempt_inv. constructor; ss; auto; try (rewrite Ht; reflexivity).
 Qed.
 
@@ -604,6 +618,7 @@ Lemma init_inv hs sb ds vs : Inv (init hs sb ds vs).
 Proof.
   unfold init. constructor; cbn; intros; try congruence; try discriminate; auto.
   all: try (match goal with H : False |- _ => destruct H end).
+  all: try (apply incl_nil_l).
   intros w d [].
 Qed.
 
